@@ -671,6 +671,79 @@ async fn run_feed_oversize(addr: String, certs: Certs, id: u64, comp: Option<&'s
     }
 }
 
+/// Several library subscribers open on a topic nobody has used yet at the same moment (separate clients, released by
+/// a barrier); a publisher then sends a few items and finishes. Every subscriber whose open() succeeded "registered
+/// before the first send" and must yield exactly the items.
+async fn run_concurrent_open(addr: String, certs: Certs, rounds: usize, id: u64) -> Outcome {
+    let n = 8usize;
+    let mut clients = vec![];
+    for _ in 0..n {
+        match lib_client(&addr, &certs, None).await {
+            Ok(c) => clients.push(c),
+            Err(e) => return Outcome::Inconclusive(format!("connect: {e}")),
+        }
+    }
+    let pub_client = match lib_client(&addr, &certs, None).await {
+        Ok(c) => c,
+        Err(e) => return Outcome::Inconclusive(format!("connect: {e}")),
+    };
+    let mut delivered = 0usize;
+    for round in 0..rounds {
+        let topic = unique_topic("c03r", id * 10_000 + round as u64);
+        let barrier = Arc::new(tokio::sync::Barrier::new(n));
+        let mut tasks = vec![];
+        for c in clients.iter() {
+            let (c, b, t) = (c.clone(), barrier.clone(), topic.clone());
+            tasks.push(tokio::spawn(async move {
+                let builder = c.subscriber(&t).with_decoder(StringCodec);
+                b.wait().await;
+                builder.open().await.map_err(|e| e.to_string())
+            }));
+        }
+        let mut subs = vec![];
+        for t in tasks {
+            match t.await {
+                Ok(Ok(s)) => subs.push(s),
+                Ok(Err(e)) => return Outcome::Violated { sig: "open-error/concurrent-open".into(), detail: format!("round {}: open() of a subscriber on a fresh topic failed on a healthy connection: {}", round, e) },
+                Err(e) => return Outcome::Inconclusive(format!("harness task: {e}")),
+            }
+        }
+        let mut publisher = match pub_client.publisher(&topic).with_encoder(StringCodec).open().await {
+            Ok(p) => p,
+            Err(e) => return Outcome::Inconclusive(format!("open publisher: {e}")),
+        };
+        tokio::time::sleep(Duration::from_millis(40)).await;
+        let sent: Vec<String> = (0..5).map(|i| format!("r{}-item{}", round, i)).collect();
+        for it in &sent {
+            if let Err(e) = publisher.send(it.clone()).await {
+                return Outcome::Violated { sig: "send-error".into(), detail: e.to_string() };
+            }
+        }
+        if let Err(e) = publisher.finish().await {
+            return Outcome::Violated { sig: "finish-error".into(), detail: e.to_string() };
+        }
+        for (k, mut s) in subs.into_iter().enumerate() {
+            let mut got: Vec<String> = vec![];
+            let deadline = tokio::time::Instant::now() + Duration::from_secs(4);
+            while got.len() < sent.len() {
+                match tokio::time::timeout_at(deadline, s.next()).await {
+                    Ok(Some(Ok(it))) => got.push(it),
+                    Ok(Some(Err(e))) => return Outcome::Violated { sig: "subscriber-error/concurrent-open".into(), detail: format!("round {}: subscriber {} yielded an error: {}", round, k, e) },
+                    Ok(None) | Err(_) => break,
+                }
+            }
+            if got != sent {
+                return Outcome::Violated {
+                    sig: "lost/concurrent-open".into(),
+                    detail: format!("round {}: {} subscribers opened on the fresh topic {} at the same moment (all open() calls succeeded); the publisher then sent {:?} and finished; subscriber {} yielded {:?} within 4 s", round, n, topic, sent, k, got),
+                };
+            }
+            delivered += got.len();
+        }
+    }
+    Outcome::Held { delivered }
+}
+
 fn configs(tier: &str, rng: &mut Rng) -> Vec<Cfg> {
     let thorough = tier == "thorough";
     let comps: Vec<Option<&str>> = vec![None, Some("gzip"), Some("zlib"), Some("zstd"), Some("lz4"), Some("brotli-generic"), Some("brotli-text"), Some("brotli-font"), Some("zlib-9"), Some("zstd-fastest"), Some("gzip-fastest")];
@@ -892,6 +965,15 @@ pub fn run(rep: &mut StageReport, tier: &str, seed: u64) {
             let r = match tokio::time::timeout(Duration::from_secs(90), run_feed_oversize(addr.clone(), certs.clone(), 91_000 + i as u64, comp, before, after)).await {
                 Ok(o) => o,
                 Err(_) => Outcome::Inconclusive("watchdog: feed/oversize scenario did not finish within 90 s".into()),
+            };
+            out.push((cfg, r));
+        }
+        {
+            let rounds = if tier == "thorough" { 200 } else { 25 };
+            let cfg = Cfg { codec: "string", compression: None, batch: None, count: 5 * rounds, payload: 10, sizes: None, compressible: false, id: 92_000 };
+            let r = match tokio::time::timeout(Duration::from_secs(400), run_concurrent_open(addr.clone(), certs.clone(), rounds, 1)).await {
+                Ok(o) => o,
+                Err(_) => Outcome::Inconclusive("watchdog: concurrent-open scenario did not finish within 400 s".into()),
             };
             out.push((cfg, r));
         }
